@@ -473,8 +473,9 @@ def requests(case, obs):
     return [sx(['C03', ['id', 0], ['defs'] + [def_sx(case['defs'][i]) for i in order]]) for order in case['perms']]
 
 
-MODEL_ERR_OK = {'ValueError': ('ValueError',), 'UndefinedUnitError': ('UndefinedUnitError', 'AttributeError'),
-                'BadDefinition': None}
+# what pint raises when the expression contains a mangled digit-leading name (2pstoreN_i, 123, 3_storeN_x, …)
+MANGLED = ('UndefinedUnitError', 'AttributeError', 'TokenError', 'SyntaxError', 'DefinitionSyntaxError')
+MODEL_ERR_OK = {'ValueError': ('ValueError',), 'UndefinedUnitError': MANGLED, 'BadDefinition': None}
 
 
 def compare(case, obs, replies):
@@ -584,7 +585,7 @@ def oracle(case, obs):
             continue
         if o['outcome'] != 'ok':
             cls = o['outcome'][4:]
-            if digit_refs and cls in ('UndefinedUnitError', 'AttributeError'):
+            if digit_refs and cls in MANGLED:
                 key = 'valid-rejected:digit-leading-name'
             elif odd_zero and cls == 'ValueError' and 'Offsets' in o.get('message', ''):
                 key = 'valid-rejected:zero-offset-spelling'
